@@ -72,12 +72,16 @@ def one_case(rng):
         want_tables['JMPREL'] = (rela, ents)
     rng.shuffle(tags)
     tags.append(('DT_NULL', 0))
-    image, offs = W.write_dynamic_exec(cls, le, machine, blobs, tags)
-    cfg = 'class=%d le=%s gnu_hash=%s symbols=%r tags=%r' % (cls, le, use_gnu, order, [t for t, _ in tags])
+    # the tables usually sit in one loadable segment; one time in three they are spread over two (string table first, so that
+    # the first pointer a fresh object maps lies in the earlier segment and later ones in the later segment)
+    split = rng.randrange(1, len(blobs)) if rng.random() < 0.34 else None
+    image, offs = W.write_dynamic_exec(cls, le, machine, blobs, tags, split=split)
+    cfg = 'class=%d le=%s gnu_hash=%s symbols=%r tags=%r loadable segments=%d (second from blob %r)' % (
+        cls, le, use_gnu, order, [t for t, _ in tags], 1 if split is None else 2, split)
     ef = ELFFile(io.BytesIO(image))
     seg = next(s for s in ef.iter_segments() if s['p_type'] == 'PT_DYNAMIC')
     got_tags = [(t.entry.d_tag, t.entry.d_val) for t in seg.iter_tags()]
-    want = [(t, (0x10000 + offs[v[1]]) if isinstance(v, tuple) else v) for t, v in tags]
+    want = [(t, offs['@' + v[1]] if isinstance(v, tuple) else v) for t, v in tags]
     if got_tags != want:
         return 'iter_tags() = %r, encoded %r' % (got_tags[:8], want[:8]), cfg
     for t in seg.iter_tags():
@@ -120,6 +124,84 @@ def one_case(rng):
     return None
 
 
+def _with_sections(image, cls, le, dyn_off, dyn_len, str_off, str_len, shift):
+    """the same image with a section header table: a .dynamic section that starts `shift` entries into the PT_DYNAMIC extent.
+    shift == 0: the section is the segment's array and links the true string table (both views must agree).  shift > 0: a
+    section that merely lies inside the segment and links ANOTHER string table (same offsets, other spellings) -- the
+    segment's strings are still those of the table DT_STRTAB designates"""
+    e = '<' if le else '>'
+    tagsz = 16 if cls == 64 else 8
+    fake = bytes((c - 32 if 97 <= c <= 122 else c) for c in image[str_off:str_off + str_len])
+    shstr = b'\x00.dynamic\x00.dynstr\x00.shstrtab\x00'
+    fake_off = len(image)
+    shstr_off = fake_off + len(fake)
+    shoff = shstr_off + len(shstr)
+    shoff += -shoff % 8
+
+    def sh(name, typ, off, size, link=0, entsize=0, flags=0, addr=0):
+        if cls == 64:
+            return struct.pack(e + 'IIQQQQIIQQ', name, typ, flags, addr, off, size, link, 0, 8, entsize)
+        return struct.pack(e + 'IIIIIIIIII', name, typ, flags, addr, off, size, link, 0, 8, entsize)
+    link_off, link_len = (str_off, str_len) if shift == 0 else (fake_off, len(fake))
+    # (.dynamic is an allocated, writable section mapped where the single PT_LOAD of the writer maps its file offset)
+    tab = sh(0, 0, 0, 0) + sh(1, 6, dyn_off + shift * tagsz, dyn_len - shift * tagsz, 2, tagsz, 3, 0x10000 + dyn_off + shift * tagsz) + \
+        sh(10, 3, link_off, link_len) + \
+        sh(18, 3, shstr_off, len(shstr))
+    img = bytearray(image + fake + shstr)
+    img += b'\x00' * (shoff - len(img)) + tab
+    if cls == 64:
+        img[0x28:0x30] = struct.pack(e + 'Q', shoff)
+        img[0x3c:0x40] = struct.pack(e + 'HH', 4, 3)
+    else:
+        img[0x20:0x24] = struct.pack(e + 'I', shoff)
+        img[0x30:0x34] = struct.pack(e + 'HH', 4, 3)
+    return bytes(img)
+
+
+def sections_case(rng):
+    """C09: the dynamic information is the same with and without section headers"""
+    from specs import elf_writer as W
+    from elftools.elf.elffile import ELFFile
+    cls, le = rng.choice([32, 64]), rng.random() < 0.5
+    strtab = b'\x00libc.so.6\x00libm.so\x00/opt/lib\x00me.so\x00'
+    so = {n: strtab.index(n.encode() + b'\x00') for n in ('libc.so.6', 'libm.so', '/opt/lib', 'me.so')}
+    tags = [('DT_NEEDED', so['libc.so.6']), ('DT_NEEDED', so['libm.so']), ('DT_SONAME', so['me.so']), ('DT_RUNPATH', so['/opt/lib']),
+            ('DT_STRTAB', ('ptr', 'strtab')), ('DT_STRSZ', len(strtab))]
+    rng.shuffle(tags)
+    tags = [('DT_DEBUG', 0)] * rng.choice([1, 2]) + tags + [('DT_NULL', 0)]
+    image, offs = W.write_dynamic_exec(cls, le, 62 if cls == 64 else 3, [('strtab', strtab)], tags)
+    plain = next(s for s in ELFFile(io.BytesIO(image)).iter_segments() if s['p_type'] == 'PT_DYNAMIC')
+    shift = rng.choice([0, 1])
+    img2 = _with_sections(image, cls, le, plain['p_offset'], plain['p_filesz'], offs['strtab'], len(strtab), shift)
+    cfg = 'class=%d le=%s tags=%r; section headers added, .dynamic starts %d entries into PT_DYNAMIC and links %s' % (
+        cls, le, [t for t, _ in tags], shift, 'the DT_STRTAB table' if shift == 0 else 'another string table')
+    want = []
+    for t, v in tags:
+        if t in ('DT_NEEDED', 'DT_SONAME', 'DT_RUNPATH'):
+            want.append((t, next(k for k, o in so.items() if o == v)))
+
+    def strings(obj):
+        out = []
+        for t in obj.iter_tags():
+            for tag, attr in (('DT_NEEDED', 'needed'), ('DT_SONAME', 'soname'), ('DT_RUNPATH', 'runpath')):
+                if t.entry.d_tag == tag:
+                    out.append((tag, getattr(t, attr)))
+        return out
+    ef = ELFFile(io.BytesIO(img2))
+    seg = next(s for s in ef.iter_segments() if s['p_type'] == 'PT_DYNAMIC')
+    if strings(seg) != want:
+        return 'segment view with section headers present: strings %r, the table DT_STRTAB designates spells %r' % (strings(seg), want), cfg, img2.hex()
+    if strings(plain) != want:
+        return 'segment view without section headers: strings %r, encoded %r' % (strings(plain), want), cfg, image.hex()
+    if shift == 0:
+        sec = ef.get_section_by_name('.dynamic')
+        a = [(t.entry.d_tag, t.entry.d_val) for t in sec.iter_tags()]
+        b = [(t.entry.d_tag, t.entry.d_val) for t in seg.iter_tags()]
+        if a != b or strings(sec) != want:
+            return 'section view %r / %r differs from the segment view %r / %r' % (a[:6], strings(sec), b[:6], want), cfg, img2.hex()
+    return None
+
+
 @task('c09-dynamic-differential', ['C09'], kind='bounded')
 def dynamic_diff(tier, seed):
     rng = random.Random(seed * 41 + 9)
@@ -128,6 +210,9 @@ def dynamic_diff(tier, seed):
     for _ in range(n):
         try:
             r = one_case(rng)
+            if not r and _ % 3 == 0:
+                r = sections_case(rng)
+                r = r and (r[0], r[1] + ' image=' + r[2][:600])
         except Exception as e:
             import traceback
             r = ('raised %r (%s)' % (e, ' | '.join(x.strip() for x in traceback.format_exc().splitlines()[-4:-1])), '')
@@ -139,6 +224,8 @@ def dynamic_diff(tier, seed):
     obs = [dict(name='bounded:elf/dynamic.py:section-less-image', kind='bounded', verdict='refuted' if bad else 'proved',
                 backend='ground-eval(seeded differential, %d images)' % n, time=0.0, bounded=True, detail=bad and bad[0][:600], native=nat)]
     return dict(obligations=obs, assumptions=['BOUNDED: one PT_LOAD + PT_DYNAMIC, 1-6 symbols, SysV or GNU hash, REL/RELA/JMPREL tables of 1-4 entries, '
-                                              'both classes and byte orders; RELR tables are covered by the K1 contracts only'],
+                                              'both classes and byte orders, one time in three the tables spread over two PT_LOAD segments; every third case also adds a section header '
+                                              'table whose .dynamic section is the segment (both views compared) or lies inside it with another string table; RELR '
+                                              'tables are covered by the K1 contracts only'],
                 functions=[dict(function='elftools/elf/dynamic.py:DynamicSegment (iter_tags, get_relocation_tables, num_symbols, iter_symbols)',
                                 kind='bounded differential')], exhaustive=False)
